@@ -89,6 +89,10 @@ def make_message(ev, n):
     if ev == "app_ans":
         return C.app_answer(APP_ID, 316, hb, ee, "p;6;%d" % n, PEER_HOST, PEER_REALM, extra=tag)
     if ev == "app_req_misaddressed":
+        if n % 3 == 2:
+            # a vendor-specific AVP that merely shares the code of Destination-Host / Destination-Realm
+            return C.app_request(APP_ID, 316, hb, ee, "p;6;%d" % n, PEER_HOST, PEER_REALM, NODE_REALM,
+                                 extra=tag + [(C.DEST_HOST if n % 2 else C.DEST_REALM, C.AF_V | C.AF_M, 10415, b"someone.else")])
         if n % 2:
             return C.app_request(APP_ID, 316, hb, ee, "p;6;%d" % n, PEER_HOST, PEER_REALM, "other.realm",
                                  dhost="someone.else", extra=tag)
@@ -447,6 +451,10 @@ class C06(Check):
                             viol("a local stop sends one DPR", "H2/dpr-count-%d" % min(k, 2), {"dprs": k, "pre": pre, "obs": obs})
                     elif ob[0] == "dwr":
                         k = sum(1 for x in out if x["code"] == C.DW and C.is_request(x))
+                        waited = scn["watchdog"] + 3 * knobs["TRACKING_SOCKET_EVENTS_TIMEOUT"] + 1.0
+                        # (how MANY watchdog requests an idle period produces is not judged: the implementation's
+                        # idle counter counts selector rounds, not seconds, so even the repaired tree emits them
+                        # faster than configured after traffic; a clause bounding the rate raised a false alarm)
                         if k < 1:
                             viol("an idle open connection emits a watchdog request after the configured timeout",
                                  "H5/no-dwr", {"watchdog": scn["watchdog"], "waited": scn["watchdog"] + 3 * knobs["TRACKING_SOCKET_EVENTS_TIMEOUT"] + 1.0})
